@@ -86,6 +86,10 @@ pub static PAUSE_AT: AtomicI64 = AtomicI64::new(-1);
 pub static COUNT_CALLS: AtomicBool = AtomicBool::new(false);
 /// make connect() fail with ECONNREFUSED / bind() fail: counters of forced failures
 pub static FAIL_MMAP: AtomicBool = AtomicBool::new(false);
+/// one-shot forced failures of the next AF_UNIX socket() / bind() / listen() call (C08: error paths of OneShotServer::new)
+pub static FAIL_SOCKET: AtomicBool = AtomicBool::new(false);
+pub static FAIL_BIND: AtomicBool = AtomicBool::new(false);
+pub static FAIL_LISTEN: AtomicBool = AtomicBool::new(false);
 
 pub struct Installed(*mut Ctx);
 impl Drop for Installed {
@@ -352,6 +356,10 @@ pub unsafe extern "C" fn socketpair(d: i32, t: i32, p: i32, sv: *mut i32) -> i32
 }
 #[no_mangle]
 pub unsafe extern "C" fn socket(d: i32, t: i32, p: i32) -> i32 {
+    if d == libc::AF_UNIX && FAIL_SOCKET.swap(false, Ordering::SeqCst) {
+        set_errno(libc::ENFILE);
+        return -1;
+    }
     let r = real!("socket", unsafe extern "C" fn(i32, i32, i32) -> i32)(d, t, p);
     if d == libc::AF_UNIX {
         ledger_open(r, "socket");
@@ -369,6 +377,10 @@ pub unsafe extern "C" fn connect(fd: i32, a: *const libc::sockaddr, l: u32) -> i
 }
 #[no_mangle]
 pub unsafe extern "C" fn bind(fd: i32, a: *const libc::sockaddr, l: u32) -> i32 {
+    if FAIL_BIND.swap(false, Ordering::SeqCst) {
+        set_errno(libc::EADDRINUSE);
+        return -1;
+    }
     let r = real!("bind", unsafe extern "C" fn(i32, *const libc::sockaddr, u32) -> i32)(fd, a, l);
     let e = errno();
     let path = if !a.is_null() && (*a).sa_family as i32 == libc::AF_UNIX {
@@ -384,6 +396,10 @@ pub unsafe extern "C" fn bind(fd: i32, a: *const libc::sockaddr, l: u32) -> i32 
 }
 #[no_mangle]
 pub unsafe extern "C" fn listen(fd: i32, n: i32) -> i32 {
+    if FAIL_LISTEN.swap(false, Ordering::SeqCst) {
+        set_errno(libc::EADDRINUSE);
+        return -1;
+    }
     let r = real!("listen", unsafe extern "C" fn(i32, i32) -> i32)(fd, n);
     rec(|| Ev::Listen { fd, backlog: n, r });
     r
